@@ -196,8 +196,8 @@ def _walk_ctx(items: list, encl: str | None = None, infor: bool = False) -> Iter
             yield from _walk_ctx(it[3], it[1], infor)
         elif k == "if":
             yield from _walk_ctx(it[2], encl, infor)
-        elif k in ("for", "forin"):
-            yield from _walk_ctx(it[3], encl, True)
+        elif k in M.BODY3:
+            yield from _walk_ctx(it[3], encl, k in ("for", "forin") or infor)
 
 
 def shape(prog: dict, entry: str) -> str:
@@ -730,12 +730,9 @@ def _prune(prog: dict, entry: str) -> dict:
 def _paths(items: list, pre: tuple = ()) -> Iterator[tuple]:
     for i, it in enumerate(items):
         yield (*pre, i)
-        if it[0] == "b":
-            yield from _paths(it[3], (*pre, i, 3))
-        elif it[0] == "if":
-            yield from _paths(it[2], (*pre, i, 2))
-        elif it[0] in ("for", "forin"):
-            yield from _paths(it[3], (*pre, i, 3))
+        bi = M.body_index(it)
+        if bi is not None:
+            yield from _paths(it[bi], (*pre, i, bi))
 
 
 def _get_parent(items: list, path: tuple) -> tuple[list, int]:
@@ -753,10 +750,9 @@ def _retarget(items: list, old: str, new: str | None) -> list:
                 out.append(["x", new])
             continue
         it = list(it)
-        if it[0] in ("b", "for", "forin"):
-            it[3] = _retarget(it[3], old, new)
-        elif it[0] == "if":
-            it[2] = _retarget(it[2], old, new)
+        bi = M.body_index(it)
+        if bi is not None:
+            it[bi] = _retarget(it[bi], old, new)
         out.append(it)
     return out
 
@@ -785,10 +781,10 @@ def _variants(prog: dict, entry: str) -> Iterator[dict]:
         for path in list(_paths(prog[name])):
             lst0, i = _get_parent(prog[name], path)
             it = lst0[i]
-            if it[0] in ("b", "if", "for"):
+            if it[0] in ("b", "if", "for", "unless", "case", "with"):
                 p2 = copy.deepcopy(prog)
                 lst, i = _get_parent(p2[name], path)
-                body = lst[i][3] if it[0] in ("b", "for") else lst[i][2]
+                body = lst[i][M.body_index(it)]
                 lst[i : i + 1] = body
                 yield p2
             if it[0] == "b" and (it[2] or it[4] == it[1]):
